@@ -16,6 +16,8 @@ def fa_scenario(rng, tier, jfa=None, sessions=None):
     U = rng.normal(size=(C * D, rU))
     V = rng.normal(size=(C * D, rV))
     Dd = rng.uniform(0.3, 1.5, size=C * D)
+    if rng.random() < 0.35:
+        Dd = Dd * rng.choice([-1.0, 1.0], size=C * D)  # D enters only as D z with z ~ N(0, 1): the sign of an entry is free (and EM keeps it)
     ns = int(rng.integers(1, 6)) if sessions is None else sessions
     return dict(C=C, D=D, rU=rU, rV=rV, jfa=jfa, w=w, m=m, v=v, U=U, V=V, Dd=Dd, sts=[rand_stat(rng, C, D, m, v) for _ in range(ns)],
                 route=pick_route(rng), np_ints=bool(rng.random() < 0.3), layout=["C", "C", "F", "strided"][int(rng.integers(0, 4))])
@@ -35,6 +37,10 @@ def mk_stats(sc, st):
     n = np.asarray(st["n"])
     if sc.get("layout") == "F":  # the same first-order statistics in another memory layout (e.g. computed as (x.T @ resp).T)
         g.sum_px = np.asfortranarray(g.sum_px)
+    elif sc.get("layout") == "dask":  # statistics whose arrays are Dask arrays (GMMStats built from a Dask computation, not yet computed)
+        import dask.array as da
+        g.n = da.from_array(np.asarray(g.n, dtype=float), chunks=-1)
+        g.sum_px = da.from_array(np.asarray(g.sum_px, dtype=float), chunks=-1)
     elif sc.get("layout") == "strided":
         big = np.zeros((sc["C"], 2 * sc["D"]))
         big[:, ::2] = g.sum_px
